@@ -42,6 +42,10 @@ CHECKS = {
  'C01': dict(engine='OidTree', design='6 (C01)', technique='TLA+ spec OidTree.tla grows module sets declaration by declaration (TLC explores every shape, parent choice, spelling and insertion position) and defines the ground-truth OID GT; scenarios rendered to MIB text, compiled by the real MibCompiler with both code generators, pysnmp modules executed with the real MibBuilder; observations validated by TLC (OidTreeTrace)',
              text='Compiles, JsonOid, PyOid, SummaryOids/Identity/Enterprise/Compliance for forests of <=3-4 declarations over 2-3 modules: every parent choice (numeric roots in three spellings, imported base node, earlier node of any module => import chains and cycles), sub-identifier spellings number / name(number), all OID-carrying kinds incl. TRAP-TYPE and conceptual tables, every declaration order; identifiers with hyphens, mixed case, Python keywords, module-scoped duplicates.',
              note='Trusted: TLC; the renderer harness/render.py and the projection of JSON / MibBuilder symbols; SMI base modules are harness fixtures. Scope: bounded forests, quick tier replays 2500 scenarios per slice through JSON and 250 through pysnmp (seeded sample of the exported state space). Module sets with import cycles are not loaded into pysnmp (platform limit).'),
+
+ 'C03': dict(engine='Decls', design='6 (C03)', technique='TLA+ spec Decls.tla grows a module as a list of declarations of every clause kind with attributes (TLC explores kinds x status x access x units x revisions x insertion positions) and defines ExpectedDoc; rendered modules compiled by the real MibCompiler + JsonCodeGen; the parsed JSON documents validated by TLC (DeclsTrace)',
+             text='WellFormed (parses, no duplicate keys in the raw text), ExactlyDeclared (one entry per declared symbol plus imports/meta), RecordMatches (class, node type, status, max-access, units, revision dates), NoCrossWiring, for all declaration lists of length <=2 over all fifteen declaration shapes with every status/access value and of length 3 with reduced attributes, in every order; names with hyphens, Python keywords, mixed case; with and without texts.',
+             note='Trusted: TLC; renderer and JSON projection; the harness table mapping revision ids to (spelling, canonical date). Scope: <=3 declarations per module; quick tier replays a seeded sample of 3000 scenarios per slice. SEQUENCE row types, CHOICE and MACRO definitions are auxiliary syntax, not symbols (DESIGN reading).'),
 }
 PENDING = 'check under construction in this round; will be claimed when its TLA+ spec, replay and trace validation exist'
 
@@ -58,6 +62,7 @@ m = {
              {'name': 'ReaderLookup', 'path': 'specs/ReaderLookup.tla', 'serves_properties': ['C14', 'C19'], 'kind_free_text': 'TLA+ model of which file a local/ZIP source may return for a name; ReaderLookupTrace.tla; UrlDispatch.tla'},
              {'name': 'History', 'path': 'specs/History.tla', 'serves_properties': ['C12'], 'kind_free_text': 'TLA+ model of the reset discipline of parser / generator / compiler instances; HistoryTrace.tla'},
              {'name': 'OidTree', 'path': 'specs/OidTree.tla', 'serves_properties': ['C01'], 'kind_free_text': 'TLA+ builder of OID forests over module sets with ground-truth OID operator; OidTreeTrace.tla'},
+             {'name': 'Decls', 'path': 'specs/Decls.tla', 'serves_properties': ['C03'], 'kind_free_text': 'TLA+ builder of declaration lists with ExpectedDoc; DeclsTrace.tla'},
              {'name': 'OidIndex', 'path': 'specs/OidIndex.tla', 'serves_properties': ['C18'], 'kind_free_text': 'TLA+ model of the persistent OID->module index and its merge/compaction; OidIndexTrace.tla'}],
  'checks': [], 'not_applicable': [],
  'notes': 'All checks: cwd=/verif, ./check <id> --tier quick|thorough; exit 0 pass, 1 violation (VIOLATION line), 2 machinery failure. known_findings.json lists open findings and fixed: records.',
